@@ -52,7 +52,7 @@ def run_one(sid, tier, in_place):
     patch = os.path.join(d, "patch.diff")
     tmp = tempfile.mkdtemp(prefix="seed_", dir="/tmp")
     try:
-        env = dict(os.environ, VERIF_NO_SHRINK="1", VERIF_REPLAY_SUBDIR=os.path.join(tmp, "replays"))
+        env = dict(os.environ, VERIF_NO_SHRINK="1", VERIF_QUICK_CAP=os.environ.get("VERIF_QUICK_CAP", "1800"), VERIF_REPLAY_SUBDIR=os.path.join(tmp, "replays"))
         if in_place:
             st = subprocess.run(["git", "-C", "/repo", "status", "--porcelain"], capture_output=True, text=True).stdout
             if st.strip():
